@@ -200,3 +200,56 @@ def no_fatal_error_before_authentication(ctx, rule, instance):
                         ok = False
         ctx.check(ok, rule, instance, b, c.where(), '%s only after the AEAD tag verified' % short(c.f),
                   'a fatal %s can be raised for a packet that has not been authenticated (before or without a successful PacketKey::decrypt)' % short(c.f))
+
+
+def remote_stream_opened_only_within_limit(ctx, rule, instance):
+    """StreamsState::on_stream_frame raises next_remote (the application then sees `Opened` and accept() hands out the
+    ids) for a peer-initiated stream.  Every call of it must therefore be made for an id that is known to lie below the
+    advertised stream limit: the call is dominated by the Ok edge of validate_receive_id(id), or by a guard
+    `id.index() >= max_remote[dir]` whose violating edge returns STREAM_LIMIT_ERROR, or by the Some edge of a lookup of
+    that stream's state (entries exist only for streams within the limit).  Otherwise one frame naming a huge stream id
+    (MAX_STREAM_DATA did, on the pinned tree) opens every stream up to it."""
+    F = ctx.facts
+    osf = ctx.pfn('StreamsState::on_stream_frame')
+    n = 0
+    for c in F.callers_of('StreamsState::on_stream_frame', crate='quinn_proto'):
+        b = c.body
+        n += 1
+        ok = False
+        why = ''
+        # (a) validated id
+        for v in b.calls_to('StreamsState::validate_receive_id'):
+            for br in branches(F, b):
+                if br.desc[0] == 'discr' and contains_site(br.desc[1], v) and b.dominates(br.bb, c.bb) and c.bb not in b.reachable_from(br.target(1), avoid=[br.bb]):
+                    ok = True
+                    why = 'validate_receive_id(id)?'
+        # (b) explicit limit guard: for a peer-initiated id (the `initiator != side` edges) every path to the call passes the
+        #     pass edge of `index >= max_remote -> STREAM_LIMIT_ERROR`
+        if not ok:
+            ges = guard_edges(ctx, b, lambda o, x, y: o == 'Le' and D.has_field(x, 'max_remote') and D.has_call(y, 'StreamId::index'))
+            if ges:
+                cut = set()
+                for br in branches(F, b):
+                    for truth in (True, False):
+                        rel = relation_on(br.desc, truth)
+                        # edge on which the stream is LOCALLY initiated: on_stream_frame cannot raise next_remote there
+                        if rel and rel[0] == 'Eq' and (D.has_call(rel[1], 'StreamId::initiator') or D.has_call(rel[2], 'StreamId::initiator')) and (D.has_field(rel[1], 'side') or D.has_field(rel[2], 'side')):
+                            cut.add((br.bb, br.target(1 if truth else 0)))
+                avoid = [br.bb for br, truth, tgt in ges]
+                reach = b.reachable_from(0, avoid=avoid, avoid_edges=cut)
+                viol_ok = all(c.bb not in b.reachable_from(tgt, avoid=[br.bb]) for br, truth, tgt in ges)
+                if c.bb not in reach and viol_ok:
+                    ok = True
+                    why = 'index >= max_remote guard on every path of a peer-initiated id'
+        # (c) the stream's state entry was found
+        if not ok:
+            for lk in b.calls():
+                if short(lk.f or '').split('::')[-1] in ('get_mut', 'get', 'entry') and (D.has_field(arg_desc(F, lk, 0), 'send') or D.has_field(arg_desc(F, lk, 0), 'recv')):
+                    for br in branches(F, b):
+                        if br.desc[0] == 'discr' and contains_site(br.desc[1], lk) and b.dominates(br.bb, c.bb) and br.target(0) is not None and c.bb not in b.reachable_from(br.target(0), avoid=[br.bb]):
+                            ok = True
+                            why = 'state entry found'
+        # local streams never raise next_remote
+        ctx.check(ok, rule, instance, F.root_of(b), c.where(), why,
+                  'on_stream_frame is reached for a stream id that was neither validated against the stream limit nor found in the stream table: a frame naming a peer-initiated stream beyond max_remote opens phantom streams')
+    ctx.floor(rule, instance + '_sites', n, 4)
